@@ -111,7 +111,58 @@ rel('de.stnr.to_regional_number', 'de.stnr', lambda x, kw: M('de.stnr').to_regio
     ident=lambda v, t, kw: len(t) in (10, 11), refuse=lambda v, kw: len(v) != 13)
 
 
+def discover():
+    """Conversion functions present in the tree but not in the frozen relation table: totality and presentation
+    independence only."""
+    import inspect
+    known = set()
+    for name in REL:
+        known.add(name.split('(')[0])
+    for name, m in core.number_modules().items():
+        for fn, f in inspect.getmembers(m, inspect.isfunction):
+            key = '%s.%s' % (name, fn)
+            if fn.startswith('_') or key in known or key in REL or ('auto:' + key) in REL:
+                continue
+            if not (fn.startswith(('to_', 'from_')) or fn == 'convert'):
+                continue
+            if not getattr(f, '__module__', '').startswith('stdnum.' + name.split('.')[0]):
+                continue
+            try:
+                req = [p.name for p in inspect.signature(f).parameters.values() if p.default is p.empty]
+            except (TypeError, ValueError):
+                continue
+            if req == ['number']:
+                REL['auto:' + key] = dict(src=name, call=(lambda x, kw, _f=f: _f(x)), tgt=None, ident=None, inv=None, kw=None, refuse=None,
+                                          tkw=None, inv_expect=None, auto=True)
+
+
+def prop_auto(case, res):
+    r = REL[case['rel']]
+    src = M(r['src'])
+    x = core.dec(case['x'])
+    res.evals += 1
+    o = core.out(src.validate, x)
+    if o[0] != 'ok' or not isinstance(o[1], str):
+        return
+    v = o[1]
+    name = case['rel']
+    res.hist['cases:' + name] += 1
+    if x != v:
+        res.nt(name, x)
+    c = core.out(r['call'], x, {})
+    if c[0] == 'EXC':
+        res.violation('%s|conversion-crashes:%s' % (name, c[1]), 'c08', case, {'number': v, 'x': x, 'out': [str(t) for t in c]})
+        return
+    c2 = core.out(r['call'], v, {})
+    if c2[0] != 'EXC' and c[0] != c2[0]:
+        res.violation('%s|depends-on-presentation' % name, 'c08', case, {'x': x, 'from_x': [str(t) for t in c], 'from_canonical': [str(t) for t in c2]})
+
+
 def prop(case, res):
+    if case['rel'].startswith('auto:'):
+        if case['rel'] not in REL:
+            discover()
+        return prop_auto(case, res)
     r = REL[case['rel']]
     src, tgt = M(r['src']), M(r['tgt'])
     x = core.dec(case['x'])
@@ -242,8 +293,10 @@ def shard(a):
 
 def run(ctx):
     core.number_modules()
+    discover()
     args = [{'shard': n, 'rel': n, 'n': ctx.q(300, 8000), 'seed': ctx.seed, 'known': ctx.known_buckets} for n in REL]
     res = core.run_shards(shard, args)
     res.notes['relations'] = len(REL)
+    res.notes['conversions_discovered_outside_the_table'] = sorted(n for n in REL if n.startswith('auto:'))
     res.notes['relations_with_few_cases'] = [n for n in REL if res.hist.get('cases:' + n, 0) < 50]
     return core.finish(ctx, res, LEVEL, RULE, ASSUME, SUBS)
